@@ -339,7 +339,7 @@ class Evaluator:
                 continue
             fs = [f for f in block_facts(self, ctx, bb) if len(f) == 3 and f[0] in ("lt", "le", "eq", "ne")]
             if fs:
-                lst = self.option_facts.setdefault(v, [])
+                lst = self.option_facts.setdefault((phi, v), [])
                 for f in fs:
                     if f not in lst:
                         lst.append(f)
